@@ -175,7 +175,7 @@ pub fn grid(seed: u64, tier: Tier) -> Vec<(String, Logical)> {
     }
     if tier == Tier::Thorough {
         // seeded larger images
-        for j in 0..24u64 {
+        for j in 0..96u64 {
             let mut rng = Rng::derive(seed, "grid-seeded", j);
             let mut p = GenParams::small();
             p.max_contents = 30;
